@@ -14,9 +14,9 @@ if [ $res = ok ]; then
   demo=$(ls "$d"/*_demo_test.go.txt | head -1); name=$(basename "$demo" .txt)
   ddir=$(python3 -c "import json,sys; print(json.load(open('$d/meta.json')).get('demo_dir','test'))")
   cp "$demo" $ddir/"$name"
-  go test -vet=off -count=1 ./$ddir/ -run Demo >/tmp/mut/demo1.$$ 2>&1 && { echo "demo-with-patch: PASS (unexpected)"; res=fail; } || echo "demo-with-patch: FAIL (expected)"
+  go test -vet=off -count=1 ./$ddir/ -run 'Demo|ZZ' >/tmp/mut/demo1.$$ 2>&1 && { echo "demo-with-patch: PASS (unexpected)"; res=fail; } || echo "demo-with-patch: FAIL (expected)"
   git apply -R "$d/patch.diff"
-  go test -vet=off -count=1 ./$ddir/ -run Demo >/tmp/mut/demo2.$$ 2>&1 && echo "demo-without-patch: PASS (expected)" || { echo "demo-without-patch: FAIL"; tail -5 /tmp/mut/demo2.$$; res=fail; }
+  go test -vet=off -count=1 ./$ddir/ -run 'Demo|ZZ' >/tmp/mut/demo2.$$ 2>&1 && echo "demo-without-patch: PASS (expected)" || { echo "demo-without-patch: FAIL"; tail -5 /tmp/mut/demo2.$$; res=fail; }
 fi
 cd /; git -C /repo worktree remove --force "$wt"; rm -f /tmp/mut/*.$$
 echo "RESULT $res $(basename $d)"
